@@ -18,7 +18,7 @@ DAMAGES = ["delete-start", "delete-end", "dup-start", "dup-end", "neutral-start"
 
 
 def plan(tier, seed):
-    n = 2 if tier == "quick" else 50
+    n = 8 if tier == "quick" else 120
     return [{"suffix": s, "i": i, "seed": seed} for s in langs.ALL_SUFFIXES for i in range(n)]
 
 
